@@ -1,9 +1,13 @@
 import Corro.Model.Needs
 import Driver.Util
 /-!
-Driver for C04.  One op:
+Driver for C04.  Two ops:
 
 `can <ourActor> <ourHeads> <ourNeed> <ourPartials> <peerActor> <peerHeads> <peerNeed> <peerPartials>`
+
+`session <our state: 4 tokens> | <mode> <peer state: 4 tokens> | <mode> <peer state> …`  (1..=4 peers,
+mode `ok` = the peer completes the handshake, `close` / `reject` / `silent` = it does not; actor ids of
+us and the peers pairwise distinct, else `bad-op`)
 
 * heads    `a:h;a:h`                 (`-` = empty map)
 * need     `a:lo-hi,lo-hi;a:…`       (`a:-` = empty range list)
@@ -13,6 +17,21 @@ Map keys must be strictly increasing (the canonical form of a `HashMap`), otherw
 Answer: `a:F<lo>-<hi>,P<v>=<lo>-<hi>+<lo>-<hi>,…;a:…` (actors ascending, needs in the order
 `compute_available_needs` pushes them, partial needs by ascending version), `-` for no needs,
 `err backward-range` if any range has `lo > hi` (the real code would panic inside rangemap).
+
+Answer of `session`: what `syncSession 10 10 us <ok peers>` puts on the wire, in one of three forms (the rule
+is evaluated on the model's computed needs; the harness evaluates the same rule on the real ones).  The only
+thing of a real session that the op line does not determine is the order of the ACTORS inside one server's
+queue (iteration order of a `HashMap` built inside `compute_available_needs`; the model walks the actors in
+ascending order):
+* `seq <srv>><actor>:<need>,…` — no server has needs for two or more actors: everything is determined; the
+  whole session in sending order;
+* `act <srv>[<a>:<need>,…;<a>:…]|…` — every server with needs for 2+ actors has at most 10 queued items, so
+  it is drained completely in its first turn and, de-duplication being per actor, what it is sent per actor
+  does not depend on the actor order: per server (members order, servers that are sent nothing omitted), per
+  actor ascending, in sending order;
+* `set <a>:F<lo>-<hi>,…,P<v>=<seqs>,…;…` — otherwise only order-independent facts: per actor the union of all
+  `Full` requests (maximal ranges) and per version the union of the requested seqs.
+`err handshake` when no peer is `ok`.
 -/
 namespace Driver.C04
 open Corro Corro.Needs
@@ -64,6 +83,86 @@ def showNeed : Need → String
 def showNeeds (ns : List (Actor × List Need)) : String :=
   showList (ns.map (fun an => s!"{an.1}:" ++ ",".intercalate (an.2.map showNeed))) ";"
 
+/-! ### `session` -/
+
+/-- `| mode a h n p | mode a h n p …` → (handshake succeeds?, state) per peer -/
+def parsePeers : List String → Option (List (Bool × SyncState))
+  | [] => some []
+  | "|" :: m :: a :: h :: n :: p :: rest => do
+    let live ← match m with
+      | "ok" => some true
+      | "close" => some false
+      | "reject" => some false
+      | "silent" => some false
+      | _ => none
+    let st ← parseState a h n p
+    let tl ← parsePeers rest
+    pure ((live, st) :: tl)
+  | _ => none
+
+def insertNat (x : Nat) : List Nat → List Nat
+  | [] => [x]
+  | y :: t => if x < y then x :: y :: t else if x = y then y :: t else y :: insertNat x t
+
+/-- ascending, without duplicates -/
+def sortDedup (xs : List Nat) : List Nat := xs.foldl (fun acc x => insertNat x acc) []
+
+def distinct (xs : List Nat) : Bool := (sortDedup xs).length == xs.length
+
+inductive Form where
+  | seq | act | set
+
+/-- (number of actors, queue length) of the server made from one peer -/
+def queueShape (us p : SyncState) : Nat × Nat :=
+  let needs := computeAvailableNeeds us p
+  (needs.length, (queueOf 10 needs).length)
+
+def formOf (shapes : List (Nat × Nat)) : Form :=
+  if shapes.all (fun s => s.1 ≤ 1) then .seq
+  else if shapes.all (fun s => s.1 ≤ 1 || s.2 ≤ 10) then .act
+  else .set
+
+def showSeq (sent : List (Actor × Actor × Need)) : String :=
+  "seq " ++ showList (sent.map (fun e => s!"{e.1}>{e.2.1}:" ++ showNeed e.2.2))
+
+def showAct (peers : List SyncState) (sent : List (Actor × Actor × Need)) : String :=
+  let srvs := peers.filterMap (fun p =>
+    let mine := sent.filter (fun e => e.1 = p.actor)
+    if mine.isEmpty then none else
+    let actors := sortDedup (mine.map (·.2.1))
+    let es := actors.map (fun a =>
+      s!"{a}:" ++ ",".intercalate ((mine.filter (fun e => e.2.1 = a)).map (fun e => showNeed e.2.2)))
+    some (s!"{p.actor}[" ++ ";".intercalate es ++ "]"))
+  "act " ++ showList srvs "|"
+
+def showSet (sent : List (Actor × Actor × Need)) : String :=
+  let actors := sortDedup (sent.map (·.2.1))
+  let es := actors.map (fun a =>
+    let mine := (sent.filter (fun e => e.2.1 = a)).map (·.2.2)
+    let fulls := RSet.ofList (mine.filterMap (fun n => match n with | .full lo hi => some (lo, hi) | _ => none))
+    let versions := sortDedup (mine.filterMap (fun n => match n with | .part v _ => some v | _ => none))
+    let parts := versions.map (fun v =>
+      let seqs := RSet.ofList (mine.flatMap (fun n => match n with
+        | .part w sq => if w = v then sq else []
+        | _ => []))
+      s!"P{v}=" ++ "+".intercalate (seqs.map showRange))
+    s!"{a}:" ++ ",".intercalate (fulls.map (fun r => "F" ++ showRange r) ++ parts))
+  "set " ++ showList es ";"
+
+def runSession (ua uh un up : String) (rest : List String) : Option String := do
+  let us ← parseState ua uh un up
+  let peers ← parsePeers rest
+  if peers.isEmpty || peers.length > 4 then none else
+  if !distinct (us.actor :: peers.map (·.2.actor)) then none else
+  if !(rangesOk us && peers.all (fun p => rangesOk p.2)) then pure "err backward-range" else
+  let live := (peers.filter (·.1)).map (·.2)
+  if live.isEmpty then pure "err handshake" else
+  let sent := syncSession 10 10 us live
+  match formOf (live.map (queueShape us)) with
+  | .seq => pure (showSeq sent)
+  | .act => pure (showAct live sent)
+  | .set => pure (showSet sent)
+
 def run (toks : List String) : Option String :=
   match toks with
   | ["can", ua, uh, un, up, pa, ph, pn, pp] => do
@@ -71,6 +170,7 @@ def run (toks : List String) : Option String :=
     let peer ← parseState pa ph pn pp
     if !(rangesOk us && rangesOk peer) then pure "err backward-range" else
     pure (showNeeds (computeAvailableNeeds us peer))
+  | "session" :: ua :: uh :: un :: up :: rest => runSession ua uh un up rest
   | _ => none
 
 abbrev State := Unit
